@@ -79,6 +79,7 @@ func checkC12(c *core.Ctx) {
 	r2 := c.Rule("R12.2", "T", "Stream callbacks only under the connection lock")
 	r3 := c.Rule("R12.3", "T", "lockset of StreamPool.conns/free and of connection state")
 	r4 := c.Rule("R12.4", "T", "double-checked insert in getConnection")
+	r6 := c.Rule("R12.6", "T", "a connection handed back to the pool (remove) is not accessed again by the function that removed it")
 	r5 := c.Rule("R12.5", "T", "no reachable explicit panic in the assembler API (except tabled ones)")
 
 	for _, pkg := range []string{"reassembly", "tcpassembly"} {
@@ -210,6 +211,45 @@ func checkC12(c *core.Ctx) {
 		}
 		r3.OK(pkg+"/scan", "", "lockset scan done")
 
+		// ---- R12.6: nothing touches a connection after it went back to the pool
+		if rm := p.Func(pkg, "StreamPool.remove"); rm == nil {
+			r6.Missing(pkg+".remove", "not found")
+		} else if n := p.CG(false).Nodes[rm]; n != nil {
+			for _, e := range n.In {
+				if e.Site == nil {
+					continue
+				}
+				caller := e.Caller.Func
+				var connArg ssa.Value
+				for _, a := range e.Site.Common().Args {
+					if core.NamedIs(a.Type(), "connection") {
+						connArg = a
+					}
+				}
+				key := core.FnKey(caller) + "/after-remove"
+				if connArg == nil {
+					r6.Undecided(key, p.InstrPos(e.Site), "connection argument not identified")
+					continue
+				}
+				site := e.Site.(ssa.Instruction)
+				use := core.ForwardSearch(caller, site, func(i ssa.Instruction) bool {
+					fa, ok := i.(*ssa.FieldAddr)
+					if !ok || fa.X != connArg {
+						return false
+					}
+					if core.FieldOfAddr(fa).Name() == "mu" {
+						return false // unlocking the mutex the closer still holds
+					}
+					return true
+				}, func(i ssa.Instruction) bool { return i == core.AsInstr(connArg) })
+				usePos := ""
+				if use != nil {
+					usePos = p.InstrPos(use)
+				}
+				r6.Check(use == nil, key, p.InstrPos(site), "remove is the closer's last access to the connection's state", "the connection's state is accessed at "+usePos+" after remove put the object on the pool's free list: another assembler can pop and reset() it meanwhile (reset runs without the connection lock because it assumes the only reference)")
+			}
+		}
+
 		// ---- R12.4
 		gc := p.Func(pkg, "StreamPool.getConnection")
 		if gc == nil {
@@ -238,6 +278,7 @@ func checkC12(c *core.Ctx) {
 					}
 				}
 				rechecked := false
+				secondKind := ""
 				if lockIns != nil {
 					for _, dc := range core.DomConds(ins.Block()) {
 						bo, ok := dc.V.(*ssa.BinOp)
@@ -251,8 +292,31 @@ func checkC12(c *core.Ctx) {
 						}
 						if isNil && isSecondLookup(v, lockIns) {
 							rechecked = true
+							secondKind = lookupKind(v)
 						}
 					}
+				}
+				// the first (read-locked) lookup and the re-check must look the key up the same way
+				firstKind := ""
+				core.Instrs(gc, func(i ssa.Instruction) {
+					if lockIns == nil || core.Dominates(lockIns, i) || firstKind != "" {
+						return
+					}
+					if v, ok := i.(ssa.Value); ok {
+						switch x := v.(type) {
+						case *ssa.Lookup:
+							if fieldLoadOf(x.X, "StreamPool", "conns") {
+								firstKind = "map"
+							}
+						case *ssa.Call:
+							if f := x.Call.StaticCallee(); f != nil && f.Name() == "getHalf" {
+								firstKind = "getHalf"
+							}
+						}
+					}
+				})
+				if rechecked {
+					r4.Check(firstKind == secondKind && firstKind != "", key+"recheck-same-lookup", p.InstrPos(ins), "the re-check under the write lock looks the key up like the first check ("+firstKind+")", "the first check finds a connection through "+firstKind+" but the re-check under the write lock through "+secondKind+": a connection registered meanwhile under the reverse key is missed, so one TCP connection gets two entries and two streams")
 				}
 				r4.Check(rechecked, key+"recheck", p.InstrPos(ins), "second lookup under the write lock; a hit returns without inserting", "the insert is not preceded, under the write lock, by a second lookup of the key: two assemblers racing on a new connection both insert (the second overwrites the first, whose stream is never completed)")
 			}
@@ -333,6 +397,27 @@ func isSecondLookup(v ssa.Value, lockIns ssa.Instruction) bool {
 		}
 	}
 	return false
+}
+
+func lookupKind(v ssa.Value) string {
+	for depth := 0; depth < 6; depth++ {
+		switch x := v.(type) {
+		case *ssa.Extract:
+			v = x.Tuple
+		case *ssa.Lookup:
+			return "map"
+		case *ssa.Call:
+			if f := x.Call.StaticCallee(); f != nil && f.Name() == "getHalf" {
+				return "getHalf"
+			}
+			return ""
+		case *ssa.UnOp:
+			v = x.X
+		default:
+			return ""
+		}
+	}
+	return ""
 }
 
 // addrWritten: the field address is stored to, map-updated, appended, or deleted from.
